@@ -44,10 +44,17 @@ def apply_mutant(root, m):
     open(p, "w").write(s.replace(m["old"], m["new"]))
 
 
+_DBS = {}
+
+
 def run_rules(pid, fdir, tier="quick", root=None):
     mod = importlib.import_module(pid.lower())
-    db = facts.DB(fdir)
-    ctx = engine.Ctx(pid, tier, db, provmod.Prov(db))
+    if fdir not in _DBS:
+        _DBS.clear()                      # one fact set at a time: the slices of a scratch copy are reused by all properties
+        db_ = facts.DB(fdir)
+        _DBS[fdir] = (db_, provmod.Prov(db_))
+    db, pv = _DBS[fdir]
+    ctx = engine.Ctx(pid, tier, db, pv)
     ctx.facts_dir = fdir
     ctx.repo_root = root
     try:
